@@ -3,6 +3,8 @@ package props
 import (
 	"encoding/hex"
 	"fmt"
+	"runtime"
+	"strings"
 	"sync"
 )
 
@@ -55,10 +57,26 @@ func keyAlphabet(n int) [][16]byte {
 	return ks[:n]
 }
 
+// recoverErr runs f and turns a panic into an error that names the innermost frame inside the repository
+// (function name, not line: finding keys must survive unrelated edits).
 func recoverErr(f func()) (err error) {
 	defer func() {
 		if p := recover(); p != nil {
-			err = fmt.Errorf("panic: %v", p)
+			site := ""
+			pcs := make([]uintptr, 40)
+			n := runtime.Callers(3, pcs)
+			fr := runtime.CallersFrames(pcs[:n])
+			for {
+				f, more := fr.Next()
+				if strings.Contains(f.File, "/repo/") || strings.HasPrefix(f.Function, "free5gclib/") || strings.HasPrefix(f.Function, "tglib") || strings.HasPrefix(f.Function, "stgutg") {
+					site = " in " + f.Function
+					break
+				}
+				if !more {
+					break
+				}
+			}
+			err = fmt.Errorf("panic%s: %v", site, p)
 		}
 	}()
 	f()
